@@ -276,7 +276,7 @@ theorem simulate_single_spec (cfg : Cfg R) (r : Runner R) (idx : Int) (outs : Li
         (simulateSingle cfg r idx outs).runner.store.lookup j = r.store.lookup j := by
   unfold simulateSingle at h ⊢
   have hfc : r.clear.file = true := by simp [Runner.clear, hf]
-  simp only [hfc, Bool.not_true, Bool.false_eq_true, if_false, h0, hn, and_self, if_true] at h ⊢
+  simp only [hf, Bool.not_true, Bool.false_eq_true, if_false, h0, hn, and_self, if_true] at h ⊢
   cases hrv : runVariation cfg.merge cfg.repMax (cfg.keep idx.toNat) (r.clear.load idx.toNat) outs with
   | starved c => rw [hrv] at h; simp at h
   | done e =>
@@ -306,16 +306,18 @@ theorem simulate_single_out_of_range (cfg : Cfg R) (r : Runner R) (idx : Int)
     (simulateSingle cfg r idx outs).runner = r.clear := by
   unfold simulateSingle
   have hfc : r.clear.file = true := by simp [Runner.clear, hf]
-  simp [hfc, hout]
+  simp [hf, hout]
 
-/-- Without a results file a single-variation call is refused before anything runs. -/
+/-- **A rejected call leaves the runner as it was** (R4): without a results file a
+    single-variation call is refused before anything runs or is cleared — results,
+    `runned_reps`, partial files and the stream are untouched. -/
 theorem simulate_single_needs_file (cfg : Cfg R) (r : Runner R) (idx : Int)
     (outs : List (Outcome R)) (hf : r.file = false) :
     (simulateSingle cfg r idx outs).status = some .RuntimeError ∧
-    (simulateSingle cfg r idx outs).log = [] ∧ (simulateSingle cfg r idx outs).rest = outs := by
+    (simulateSingle cfg r idx outs).log = [] ∧ (simulateSingle cfg r idx outs).rest = outs ∧
+    (simulateSingle cfg r idx outs).runner = r := by
   unfold simulateSingle
-  have hfc : r.clear.file = false := by simp [Runner.clear, hf]
-  simp [hfc]
+  simp [hf]
 
 /-! ## The parameter grid -/
 
@@ -473,6 +475,30 @@ theorem content_after_remove (s : PState) (name : String) (hn : s.unpacked.Nodup
       · exact fun hm => (List.Nodup.mem_erase_iff hn).mp hm |>.1 rfl
       · intro m hm; exact lookup_dictDel_ne name m hm s.params
       · intro m hm; exact List.mem_erase_of_ne hm
+
+/-- **A rejected call leaves the parameters object as it was** (R4): whenever
+    `add` / `remove` / `set_unpack_parameter` raises, the state is the one before. -/
+theorem rejected_param_call_leaves_state (s : PState) (op : POp)
+    (h : (s.step op).2 ≠ none) : (s.step op).1 = s := by
+  cases op with
+  | add name v => simp [PState.step] at h
+  | remove name =>
+    simp only [PState.step] at h ⊢
+    split <;> simp_all
+  | setUnpack name b =>
+    simp only [PState.step] at h ⊢
+    cases hl : s.params.lookup name with
+    | none => simp [hl]
+    | some w =>
+      cases w with
+      | scalar v => simp [hl]
+      | list vs =>
+        simp only [hl] at h ⊢
+        by_cases hb : b = true
+        · simp [hb] at h
+        · by_cases hm : name ∈ s.unpacked
+          · simp [hb, hm] at h
+          · simp [hb, hm]
 
 /-- The unpacked set of every object reachable by any history of calls is
     duplicate-free (it is a set). -/
